@@ -3,7 +3,7 @@ the real library and project the observation into the specification's vocabulary
 Deliberately dumb: attribute reads and constructor calls only."""
 from __future__ import annotations
 
-from .core import outcome, octs, after_pack, decoded, live, scramble, rxbuf, owned, enum_arg
+from .core import outcome, octs, after_pack, decoded, live, scramble, rxbuf, owned, enum_arg, assign_grown
 from .probe import fresh
 from .probe import decode_other, poison, twin
 
@@ -122,7 +122,7 @@ def mk_tc(p, via="ctor"):
         tc.apid = p["apid"]
         tc.seq_count = p["seq"]
         tc.source_id = p["source"]
-        tc.app_data = data
+        assign_grown(tc, "app_data", data)
         return tc
     if (p["apid"] + p["seq"] + len(data)) % 3 == 1:
         from spacepackets.ecss import PusTelecommand            # the constructor under its other public name
@@ -153,7 +153,7 @@ def mk_tm(p, via="tm"):
                     message_counter=p["msgcnt"], space_time_ref=p["timeref"], destination_id=p["dest"],
                     packet_version=p["ver"])
         tm = PusTm.unpack(bytes(tm0.pack()), len(p["stamp"]))
-        tm.tm_data = bytes(p["data"])
+        assign_grown(tm, "tm_data", p["data"])
         return tm
     if via == "setter":
         tm = PusTm(service=p["service"], subservice=p["subservice"], timestamp=bytes(p["stamp"]),
@@ -162,7 +162,7 @@ def mk_tm(p, via="tm"):
                    packet_version=p["ver"])
         tm.pack()
         tm.apid = p["apid"]
-        tm.tm_data = bytes(p["data"])
+        assign_grown(tm, "tm_data", p["data"])
         return tm
     cls = PusTm
     if (p["apid"] + p["seq"] + len(p["data"])) % 3 == 1:
